@@ -7,7 +7,7 @@ import os
 import vlib
 
 
-def regenerate(files):
+def regenerate(files, legacy=False):
     """files: names of the generated files of the typed translations (e.g. ["LeafWork.v"]) that the caller's proofs depend
     on: exactly these are re-translated (a check does not rewrite the generated files of other properties, so that runs
     against different source trees do not disturb each other); the empty list = every generated file.
@@ -16,7 +16,8 @@ def regenerate(files):
     mod = importlib.util.module_from_spec(spec)
     spec.loader.exec_module(mod)
     with vlib.Lock(os.path.join(vlib.COQ, ".lock")):
-        err = mod.main(None, list(files) if files else "all")
+        err = mod.main() if legacy else None        # Gen/Leaf.v, LeafTimer.v, LeafTls.v (whole leaf functions)
+        err = err or mod.main(None, list(files) if files else "all")
     if err:
         return "leaf translator failed (generated files not rewritten, tie broken): " + err
     errs = [getattr(mod, "LAST_ERRORS", {}).get(f) for f in files]
